@@ -192,3 +192,18 @@ reg("C10", "c10",
     "calls executed on the code are folded by TLC with the same operators.",
     "Texts and labels are abstracted to integers; unicode fidelity belongs to C04. TLC, the harness projection code trusted.",
     "DESIGN.md section 4, C10")
+
+reg("C12", "c12",
+    "TLA+ spec Query.tla (Tokenize, Parse, Render/Denote, Matches/Admissible) enumerated by TLC; vectors against query.Parse; "
+    "random strings and evaluations over real populations validated by TLC as traces",
+    "TLC enumerates every string of <= 5 (6) atoms over {qualifier words, words, blank, colon, both quotes} with the outcome the "
+    "transcribed lexer and parser prescribe, and every sequence of <= 2 (3) clauses from a catalogue covering every documented "
+    "qualifier, quoted multi-word values, sub-qualifiers and all sort forms, proving the round trip Parse(Render(q)) = Denote(q) on "
+    "the model. Each vector is run through query.Parse in four instantiations (ASCII, tab, NBSP + multibyte words, ideographic "
+    "space); random strings beyond the bound are checked by trace validation (no panic, same outcome). For evaluation the harness "
+    "builds real populations through two caches sharing a remote (overlapping names and logins, labels, titles, metadata, equal "
+    "and distinct Lamport / unix times), runs generated queries through Parse + RepoCacheBug.Query and TLC accepts the trace only "
+    "if every result lists exactly the bugs satisfying the query (any-of / all-of rules, case-insensitive names, id prefixes), each "
+    "once, sorted by the requested key and direction.",
+    "ASCII case folding only; bleve full-text evaluation excluded (C11); TLC and the harness projection trusted.",
+    "DESIGN.md section 4, C12")
